@@ -370,6 +370,9 @@ fn thread_threshold<'a>(
             }
         }
     }
+    // NOTE the frontier is the unexpanded part of this level and the part of the next level that
+    // was already expanded into, nothing may stay behind for the next iteration
+    queue.append(work);
 }
 
 fn solve_generic_multi(
@@ -423,6 +426,7 @@ fn solve_generic_multi(
                 [1.0; 2],
                 &payoffs,
             );
+            payoffs.clear();
             chance_infosets.iter_mut().for_each(ChanceRecurse::advance);
             for (reg, infos) in regs.iter_mut().zip(player_infosets.iter_mut()) {
                 *reg = infos.iter_mut().map(|info| info.advance(it, params)).sum();
